@@ -219,6 +219,23 @@ pub fn gen(tier: &str, rng: &mut Rng, emit: &mut dyn FnMut(String)) {
             }
         }
     }
+    // word-at-a-time scanning mistakes: neighbour bytes of the structural bytes at every alignment, every bound
+    for (i, p) in swar_pointers().into_iter().enumerate() {
+        if tier != "thorough" && i % 3 != 0 && i % 8 != 1 {
+            continue;
+        }
+        let x = hex(p.as_bytes());
+        let n = p.matches('/').count();
+        for a in (0..=n + 1).filter(|a| *a < 14 || *a + 2 >= n) {
+            emit(format!("get {a} {x}"));
+            emit(format!("rf {a} {x}"));
+            emit(format!("rt {a} {x}"));
+            emit(format!("rti {a} {x}"));
+            emit(format!("rr {a} {} {x}", a + 2));
+            emit(format!("ri {a} {} {x}", a + 1));
+            emit(format!("rb e{a} u {x}"));
+        }
+    }
     // texts beyond the small scope as tokens of a 3-token pointer; every range form around them
     for (i, s) in boundary_texts(tier).into_iter().enumerate() {
         if i % 2 == 1 && tier != "thorough" {
